@@ -423,8 +423,11 @@ impl TryFrom<&mut Peekable<Lexer>> for ParserNode {
                         }
                         Type::JumpLinkR(inst) => {
                             let reg1 = lex.get_reg()?;
-                            let next = lex.get_any()?;
-                            return if let Ok(rs1) = next.as_reg() {
+                            // The remaining operands are optional: only look at
+                            // the next token, and consume it if it is one of them.
+                            let next = lex.peek_any().ok();
+                            return if let Some(Ok(rs1)) = next.as_ref().map(Token::as_reg) {
+                                lex.get_any()?;
                                 let imm = lex.get_imm()?;
                                 Ok(ParserNode::new_jump_link_r(
                                     With::new(inst, next_node),
@@ -433,8 +436,9 @@ impl TryFrom<&mut Peekable<Lexer>> for ParserNode {
                                     imm,
                                     lex.raw_token,
                                 ))
-                            } else if let Ok(imm) = next.as_imm() {
-                                if let Ok(()) = lex.peek_any()?.as_lparen() {
+                            } else if let Some(Ok(imm)) = next.as_ref().map(Token::as_imm) {
+                                lex.get_any()?;
+                                if lex.peek_any().is_ok_and(|t| t.as_lparen().is_ok()) {
                                     lex.get_any()?;
                                     let rs1 = lex.get_reg()?;
                                     lex.expect_rparen()?;
@@ -454,7 +458,8 @@ impl TryFrom<&mut Peekable<Lexer>> for ParserNode {
                                         lex.raw_token,
                                     ))
                                 }
-                            } else if let Ok(()) = next.as_lparen() {
+                            } else if next.as_ref().is_some_and(|t| t.as_lparen().is_ok()) {
+                                lex.get_any()?;
                                 let rs1 = lex.get_reg()?;
                                 lex.expect_rparen()?;
                                 Ok(ParserNode::new_jump_link_r(
